@@ -167,4 +167,22 @@ CHECKS = {
         "floors": {"doubly-listed-or-foreign-revision-present": 0.2, "deleting-set": 0.05},
         "assumptions": ["a revision the set owns but that carries neither selector labels nor the marker cannot be found by a label query and is not judged"] + COMMON_ASSUMPTIONS,
     },
+    "C09": {
+        "level": "fault_enumeration",
+        "rule": "state = generated world (constructed pods, orphan revisions, claims) after a <= 20-op history; the unfaulted reconcile is run on a clone "
+                "through a real worker step to learn its N API calls; then for each chosen position (quick: 4 drawn per state, thorough: all N) x "
+                "each of 8 fault kinds (server error, timeout not applied, timeout applied, crash before / after the call, and the real "
+                "interferences conflict, not-found, already-exists) a fresh clone is reconciled with that fault; a quarter of the states add a "
+                "second fault in the first recovery reconcile (pairs). One evaluation = one (state, position, kind) execution. Oracle: an error "
+                "result bumps the key's requeue counter and the key comes back, success clears it; a transient fault that is answered with success "
+                "must leave the same state as the unfaulted run; the safety monitors of C03/C04/C05/C07/C10/C12 hold on the faulted reconcile and "
+                "on every reconcile of the recovery; the fair closing schedule reaches a fixed point equal (ordinals, readiness, owners, revisions "
+                "at or above the partition, status, claims) to that of the unfaulted twin. Non-trivial = the fault hits at or after the first write "
+                "of a reconcile with >= 2 writes; distinct = distinct (state, position, kind, second fault)",
+        "legs": [{"test": "TestC09", "quick": {"checks": 120}, "thorough": {"checks": 6400, "shards": 16}}],
+        "floors": {"fault:crashAfter": 0.05, "target:create pods": 0.008, "target:update statefulsets": 0.05},
+        "timeout": {"quick": 1500, "thorough": 14400},
+        "assumptions": ["a crash is modelled as abandoning the reconcile at the call, building a new controller and refilling its caches",
+                        "timeouts are the only 'applied but reported as failed' kind"] + COMMON_ASSUMPTIONS,
+    },
 }
